@@ -131,3 +131,6 @@ func VerifC05PrefetchBusy(c *Cache, claims []*CacheEntry) bool {
 	}
 	return false
 }
+
+// VerifC05WireRecomposable exposes wireRecomposable (accessor only).
+func VerifC05WireRecomposable(rrtype uint16) bool { return wireRecomposable(rrtype) }
